@@ -168,3 +168,53 @@ def miri_batch(ctx, prop, jobs, workers=4):
         return miri_run(ctx, prop, j[0], j[1], j[2], tree_borrows=j[3], preemption=j[4])
     one(jobs[0])
     execu.pmap(one, jobs[1:], workers=workers)
+
+
+def ensure_tsan(ctx):
+    """ThreadSanitizer build of vh-proto (nightly, -Zbuild-std). Returns the binary or None (inconclusive)."""
+    hdir = build.harness_src()
+    env = dict(os.environ)
+    env["CARGO_NET_OFFLINE"] = "true"
+    env["RUSTFLAGS"] = build.GUARD + " -Zsanitizer=thread"
+    env["CARGO_TARGET_DIR"] = os.path.join(BUILD, "target-tsan")
+    cmd = ["cargo", "+nightly", "build", "--offline", "-Zbuild-std", "--target", "x86_64-unknown-linux-gnu", "--release", "-p", "vh-proto"]
+    try:
+        p = subprocess.run(cmd, cwd=hdir, env=env, capture_output=True, timeout=5400)
+    except subprocess.TimeoutExpired:
+        ctx.inconc("ThreadSanitizer build watchdog expired")
+        return None
+    exe = os.path.join(BUILD, "target-tsan", "x86_64-unknown-linux-gnu", "release", "vh-proto")
+    if p.returncode != 0 or not os.path.exists(exe):
+        ctx.inconc("ThreadSanitizer build failed: " + p.stderr.decode("utf-8", "replace")[-300:])
+        return None
+    return exe
+
+
+def run_tsan(ctx, prop, jobs, timeout=600):
+    """Runs native scenarios under ThreadSanitizer; a data-race report is a violation keyed by the racing frames."""
+    exe = ensure_tsan(ctx)
+    if exe is None:
+        return
+
+    def one(job):
+        mode, params = job
+        cmd = [exe, mode] + ["%s=%s" % kv for kv in sorted(params.items())]
+        return job, execu.run_cmd(cmd, timeout=timeout, env={"TSAN_OPTIONS": "halt_on_error=0 exitcode=66 second_deadlock_stack=1"}), " ".join(cmd)
+
+    for (mode, params), o, cmd in execu.pmap(one, jobs, workers=max(2, NCPU // 4)):
+        err = o.stderr.decode("utf-8", "replace")
+        if o.cls == "timeout":
+            ctx.inconc("TSan run watchdog: " + cmd)
+            continue
+        ctx.count("tsan_runs")
+        ctx.observe("tsan:" + cmd)
+        if "WARNING: ThreadSanitizer" in err:
+            kind = re.search(r"WARNING: ThreadSanitizer: ([^\n(]+)", err).group(1).strip()
+            frames = re.findall(r"#0 ([^\s]+) ", err)[:2]
+            ctx.violation("%s:tsan:%s:%s" % (prop.lower(), kind, "|".join(re.sub(r"::h[0-9a-f]{16}", "", f) for f in frames)),
+                          "ThreadSanitizer reported `%s` in `%s`\n%s" % (kind, cmd, err[:2500]), files={"tsan.txt": err[-20000:], "cmd.txt": cmd + "\n"}, cmd=cmd)
+        elif "VERIF-MONITOR" in err:
+            m = re.search(r"VERIF-MONITOR (.*)", err)
+            ctx.violation("%s:monitor:%s" % (prop.lower(), norm(m.group(1))), "monitor verdict under TSan in `%s`: %s" % (cmd, m.group(1)), files={"stderr.txt": err[-5000:]}, cmd=cmd)
+        elif not (o.cls == "ok" and o.status == 0):
+            ctx.inconc("TSan run ended %s: %s" % (o.key(), cmd))
